@@ -133,6 +133,11 @@ var $callDeferred = (deferred, jsErr, fromPanic) => {
         // to the point where a panic was handled.
         if (e === null && !$curGoroutine.asleep) {
             abortedByReplacement = true;
+            if (localPanicValue !== undefined) {
+                /* ... and is not in flight any more for the deferred calls that still have to run
+                   (e.g. after a deferred call resumed and called runtime.Goexit()). */
+                $panicStackDepth = null;
+            }
         }
         if (fromPanic) {
             // Re-throw the exception to reach deferral execution call at the end
